@@ -10,7 +10,11 @@ THEOREM_NAMES = ['run_fuel_mono', 'run_fuel_mono_false', 'word_munch', 'expandTa
                  'reaction_plain_rt', 'reaction_info_rt', 'kernel_conc_rt', 'two_statements_rt', 'keyword_prefixed_name_rt',
                  'document_rt', 'document_leading_rt', 'document_open_rt', 'stmtText_dl_domain', 'stmtText_dl_domain_dtype',
                  'stmtText_sl_domain', 'stmtText_sl_domain_len', 'stmtText_comp_domain', 'stmtText_resting', 'stmtText_kernel',
-                 'stmtText_kernel_conc', 'stmtText_complex', 'stmtText_structure', 'stmtText_reaction_plain', 'stmtText_reaction_info']
+                 'stmtText_kernel_conc', 'stmtText_complex', 'stmtText_structure', 'stmtText_reaction_plain', 'stmtText_reaction_info',
+                 'document_layout_rt', 'document_layout_open_rt', 'document_crlf_rt', 'document_comments_rt',
+                 'stmtTextB_dl_domain', 'stmtTextB_dl_domain_dtype', 'stmtTextB_sl_domain', 'stmtTextB_sl_domain_len',
+                 'stmtTextB_comp_domain', 'stmtTextB_resting', 'stmtTextB_kernel', 'stmtTextB_kernel_conc', 'stmtTextB_reaction_plain',
+                 'stmtTextB_reaction_info', 'stmtTextL_complex', 'stmtTextL_structure']
 THEOREMS = ['Dsd.C13.' + t for t in THEOREM_NAMES]
 ASSUMPTIONS = [
     'pyparsing 3.3.2 is modelled by a hand-written interpreter (Model/Pyparsing.lean: whitespace/comment skipping, Word maximal munch, '
@@ -35,9 +39,15 @@ MANIFEST = {
             'document_rt - for ANY non-empty list of statement texts satisfying StmtText (proved for every statement kind: 12 '
             'stmtText_* instances with the generality of the round-trip theorems), each followed by its line end and any number of '
             'blank lines, the document parses to the list of the statements\' trees in order; document_leading_rt (leading blank lines), '
-            'document_open_rt (no final newline). So every statement kind has a kernel-checked round-trip theorem for its canonical '
-            'layout and documents are concatenations; arbitrary layouts at every token boundary, decimal / scientific numbers in '
-            'reactions, error terms, comment lines between statements, file = string and history independence are NOT theorems: they are decided on the real parser by a '
+            'document_open_rt (no final newline). LINE LAYOUT: document_layout_rt - each statement may be followed on its line by a '
+            'comment, its line may end in LF or CRLF, any number of empty / blank / CR-only / comment-only lines may stand before, '
+            'between and after the statements, the last line may be unterminated (corollaries document_crlf_rt, '
+            'document_comments_rt; instances stmtTextB_* / stmtTextL_* for every statement kind; the one shape the grammar itself '
+            'does not accept - blanks between a dot-bracket and a comment, which the Word over "(.)+ " swallows - is kept as a checked '
+            'example). So every statement kind has a kernel-checked round-trip theorem with arbitrary blank counts at the positions of '
+            'its canonical layout, and documents with comments, blank lines and either line-ending style are concatenations; tabs '
+            '(expandtabs), blanks at the remaining token boundaries, decimal / scientific numbers in reactions, error terms, indented '
+            'statements, file = string and history independence are NOT theorems: they are decided on the real parser by a '
             'reference renderer over grammar-generated token trees in random layouts, and the model is compared with pyparsing on the '
             'same texts, four negative families and random mutations.',
     'note': 'pyparsing semantics is modelled by hand and tied by differential testing only; the keyword-prefix defect found by this '
@@ -199,6 +209,11 @@ def run(res, proof):
             res.violation(key, {'text': txt}, canon(r), 'ok ' + PG.show(want))
     # ---- file = string, independence of earlier parser use (sequential, in this process)
     from dsdobjects.dsdparser import parse_pil_string, parse_pil_file, parse_seesaw_string
+    from . import cu
+    # a parse result belongs to the caller: taking it apart in place must not change what the same text parses to next time
+    for (lab, txt, exp) in [c for c in cases if c[2] not in (None, 'unknown')][:40 if quick else 400]:
+        cu.fresh_results(res, 'parse_pil_string', lambda: parse_pil_string(txt), {'text': txt})
+        res.count('result_ownership_checked')
     docs = [c for c in cases if c[0] == 'document'][:40 if quick else 400]
     tmpdir = tempfile.mkdtemp(prefix='verif_c13_')
     same_hist = []
